@@ -577,6 +577,9 @@ def check_purity(ctx):
 
 
 def run(ctx):
+    from ..lints import check_stale_loop_variables
+
+    check_stale_loop_variables(ctx, "C13-D8 loop-variables", ['circuits._itertools', 'measurements.measurements', 'utils', 'api.circuit_runner'])
     check_guards(ctx)
     check_batching(ctx)
     check_expansion(ctx)
